@@ -335,6 +335,10 @@ def handle (st : DrvState) (op : String) (a : List Int) : DrvState × String :=
   | "fir", d :: toks =>
     if d != 0 then (st, firRun (Gen.rxTapsD.map tapFloat) (fun n => Float.ofInt n / 4096) dblBits toks)
     else (st, firRun (Gen.rxTapsF.map tapFloat32) (fun n => (Float.ofInt n).toFloat32 / 4096) (fun y => Int.ofNat y.toBits.toNat) toks)
+  | "firs", d :: k :: toks =>
+    let sc : Float := Float.exp2 (Float.ofInt k)
+    if d != 0 then (st, firRun (Gen.rxTapsD.map tapFloat) (fun n => Float.ofInt n / sc) dblBits toks)
+    else (st, firRun (Gen.rxTapsF.map tapFloat32) (fun n => (Float.ofInt n).toFloat32 / sc.toFloat32) (fun y => Int.ofNat y.toBits.toNat) toks)
   | "firg", d :: n :: toks =>
     -- the same polymorphic FIR model with an arbitrary tap set (values k/4096) and tap count
     let tp := toks.take n.toNat
